@@ -421,7 +421,11 @@ func (g *Gen) one() *txntest.Txn {
 			t.ApplicationArgs = [][]byte{[]byte("ldel"), []byte(stateKeys[g.n(len(stateKeys))])}
 		case 6, 7:
 			name := boxNames[g.n(len(boxNames))]
-			t.ApplicationArgs = [][]byte{[]byte("bcreate"), []byte(name), u64(uint64(g.n(40)))}
+			size := g.n(40)
+			if g.n(4) == 0 {
+				size = 0 // boundary value: an empty box (nil vs empty value in the kv deltas)
+			}
+			t.ApplicationArgs = [][]byte{[]byte("bcreate"), []byte(name), u64(uint64(size))}
 			t.Boxes = []transactions.BoxRef{{Index: 0, Name: []byte(name)}}
 		case 8:
 			name := boxNames[g.n(len(boxNames))]
